@@ -67,7 +67,7 @@ var golden = map[string]string{"golden/alpha.txt": "alpha\n", "golden/beta.txt":
 var goldenNames = []string{"golden/alpha.txt", "golden/beta.txt", "golden/aba.txt", "golden/empty.txt", "input.txt", "missing.txt"}
 
 var cmds = []string{"execfg", "execfg", "execfg", "exececho", "execbg", "execbg", "wait", "wait", "waitname", "kill", "stdout", "stdout", "stderr", "cmpout", "cmperr", "stdin", "exists",
-	"stop", "skip", "unknown", "probe", "probe", "probe", "failcmd", "phase", "snap", "snap", "exists2", "exists2"}
+	"stop", "skip", "unknown", "probe", "probe", "probe", "failcmd", "phase", "snap", "snap", "exists2", "exists2", "execbad", "longprobe"}
 
 func genPlan(t *rapid.T, tier string) any {
 	p := &Plan{}
@@ -96,9 +96,16 @@ func genPlan(t *rapid.T, tier string) any {
 		n = rapid.IntRange(0, 3).Draw(t, "tail")
 	}
 	for i := 0; i < n; i++ {
+		if !bgHeavy && rapid.IntRange(0, 14).Draw(t, "stdinchain") == 0 {
+			// who consumes the standard input set by 'stdin'? exactly the next exec, whatever becomes of it
+			mid := Line{Cmd: rapid.SampledFrom([]string{"execbad", "execbad", "execbg", "execfg", "probe"}).Draw(t, "consumer"), Neg: rapid.Bool().Draw(t, "consumerneg"),
+				Code: rapid.SampledFrom([]int{0, 1}).Draw(t, "consumercode"), Base: 3}
+			p.Lines = append(p.Lines, Line{Cmd: "stdin", Word: rapid.SampledFrom([]int{0, 1, 4}).Draw(t, "stdinfile")}, mid, Line{Cmd: "exececho", Base: 2}, Line{Cmd: "snap"})
+			continue
+		}
 		l := Line{Cmd: rapid.SampledFrom(mix).Draw(t, "cmd")}
 		for g, ng := 0, rapid.SampledFrom([]int{0, 0, 0, 1, 1, 2}).Draw(t, "nguards"); g < ng; g++ {
-			l.Guards = append(l.Guards, Guard{Cond: rapid.SampledFrom([]string{"ctrue", "cfalse", "linux", "windows"}).Draw(t, "cond"), Neg: rapid.Bool().Draw(t, "gneg")})
+			l.Guards = append(l.Guards, Guard{Cond: rapid.SampledFrom([]string{"ctrue", "cfalse", "linux", "windows", "cflip", "cflip"}).Draw(t, "cond"), Neg: rapid.Bool().Draw(t, "gneg")})
 		}
 		l.Neg = rapid.IntRange(0, 3).Draw(t, "neg") == 0
 		l.Out = rapid.IntRange(0, len(outs)-1).Draw(t, "out")
@@ -150,6 +157,7 @@ type verdict struct {
 }
 
 type evaluator struct {
+	flips                 int // evaluations of the stateful condition so far
 	stdout, stderr, stdin string
 	bgs                   []*bgProc
 	files                 map[string]bool
@@ -224,13 +232,23 @@ func (e *evaluator) unsupported(l Line, cont, failedBefore bool) string {
 }
 
 // step evaluates one line; ok=false means the line does not meet its demand.
-func (e *evaluator) step(l Line, probes *[]string) (ok bool) {
+// guardsHold evaluates the guards left to right, stopping at the first that does not hold
+// (a guard is judged when its line is reached: cflip is true on every other evaluation).
+func (e *evaluator) guardsHold(l Line) bool {
 	for _, g := range l.Guards {
 		truth := g.Cond == "ctrue" || g.Cond == "linux"
+		if g.Cond == "cflip" {
+			e.flips++
+			truth = e.flips%2 == 1
+		}
 		if truth == g.Neg {
-			return true // a guard does not hold: the line is not executed
+			return false
 		}
 	}
+	return true
+}
+
+func (e *evaluator) step(l Line, probes *[]string) (ok bool) {
 	neg := l.Neg
 	switch l.Cmd {
 	case "execfg", "exececho":
@@ -242,6 +260,13 @@ func (e *evaluator) step(l Line, probes *[]string) (ok bool) {
 		e.stdin = ""
 		success := l.Code == 0
 		return success != neg
+	case "execbad":
+		// a file that exists but is not executable: the command cannot start
+		e.stdout, e.stderr, e.stdin = "", "", ""
+		return neg
+	case "longprobe":
+		*probes = append(*probes, fmt.Sprintf("p%d", l.Word))
+		return true
 	case "execbg":
 		b := &bgProc{name: names[l.Name], neg: neg, out: withNL(outs[l.Out]), err: withNL(outs[l.Err]), ok: l.Code == 0, ever: l.Ever}
 		if b.ever {
@@ -376,14 +401,11 @@ func render(p *Plan, factor []int) (string, verdict, int) {
 		// but the evaluator only advances while the script is alive
 		alive := !ended
 		l.Name %= len(names)
+		guardsHold := true
 		if alive {
-			guardsHold := true
-			for _, g := range l.Guards {
-				truth := g.Cond == "ctrue" || g.Cond == "linux"
-				if truth == g.Neg {
-					guardsHold = false
-				}
-			}
+			// peek: would the guards hold? (evaluated on a copy so that the count only advances once)
+			peek := *e
+			guardsHold = peek.guardsHold(l)
 			if guardsHold && (l.Cmd == "waitname" || l.Cmd == "kill") {
 				// aim at a background command that is actually outstanding, if there is a named one
 				var named []int
@@ -431,6 +453,10 @@ func render(p *Plan, factor []int) (string, verdict, int) {
 			}
 		case "exececho":
 			text += fmt.Sprintf("exec stub %s code=%d stdin=echo", run, l.Code)
+		case "execbad":
+			text += "exec ./input.txt arg"
+		case "longprobe":
+			text += fmt.Sprintf("probe p%d %s", l.Word, strings.Repeat("x", 70000))
 		case "execbg":
 			if l.Ever {
 				run = "run=forever"
@@ -494,7 +520,10 @@ func render(p *Plan, factor []int) (string, verdict, int) {
 		if l.Cmd == "phase" {
 			continue
 		}
-		ok := e.step(l, &v.probes)
+		ok := true
+		if e.guardsHold(l) {
+			ok = e.step(l, &v.probes)
+		}
 		if !ok {
 			if v.failLine == 0 {
 				v.failLine = lineNo
@@ -553,6 +582,7 @@ func run(t *testing.T, plan any, keep bool) *simcheck.Outcome {
 		bin := tskit.BinDir("stub")
 		simos.SetEnvTable(map[string]string{"PATH": bin, "GOTMPDIR": filepath.Join(dir, "tmp"), "TMPDIR": filepath.Join(dir, "tmp")})
 		var probes []string
+		flips := 0
 		var subs []*tskit.Sub
 		var fatal string
 		sched := p.Sched
@@ -570,13 +600,16 @@ func run(t *testing.T, plan any, keep bool) *simcheck.Outcome {
 						return true, nil
 					case "cfalse":
 						return false, nil
+					case "cflip":
+						flips++
+						return flips%2 == 1, nil
 					}
 					return false, fmt.Errorf("unknown condition %q", cond)
 				},
 				Cmds: map[string]func(ts *testscript.TestScript, neg bool, args []string){
 					"probe": func(ts *testscript.TestScript, neg bool, args []string) {
 						simrt.Yield("probe")
-						probes = append(probes, strings.Join(args, " "))
+						probes = append(probes, args[0])
 					},
 					"snap": func(ts *testscript.TestScript, neg bool, args []string) {
 						probes = append(probes, fmt.Sprintf("snap out=%q err=%q", ts.ReadFile("stdout"), ts.ReadFile("stderr")))
@@ -681,7 +714,7 @@ func numbered(text string) string {
 var harness = &simcheck.Harness{
 	Property: "C01",
 	Level:    "exploration",
-	Rule: "rapid draws a script of up to 12 lines over the engine's command subset ([cond]/[!cond] guards with a custom Condition and OS conditions, !, exec foreground / background / named with seeded exit code, output and run time, " +
+	Rule: "rapid draws a script of up to 12 lines over the engine's command subset ([cond]/[!cond] guards with a custom Condition and OS conditions, !, a stateful custom condition, exec foreground / background / named with seeded exit code, output and run time, exec of a file that cannot be started, a 70 KB line, " +
 		"wait [name], kill -INT, stdout / stderr with literal patterns and -count, cmp stdout|stderr file, stdin, exists, one- and two-argument exists, stop, skip, an unknown command, probe / snap (exact stdout and stderr as the script sees them) / failing custom commands, phase comments) and ContinueOnError; " +
 		"lines whose meaning would depend on timing or is undocumented in the current state are dropped at rendering; each script runs under 2 (quick) / 3 (thorough) latency assignments with different schedule seeds; " +
 		"non-trivial = the expected verdict is not a plain pass or some probe ran; distinct by the hash of script and decision trace",
